@@ -35,6 +35,7 @@ RULE = (
     "callback.  Non-trivial = >= 1 failure line or Fixed line was printed; distinct = distinct digest of the first world's execution."
 )
 ASSUMPTIONS = [
+    "documents are pool documents as they are (plus CRLF / final-newline toggles), never concatenations: the range and uniqueness clauses are absolute statements and the reachable (document x setting) space was swept once when the known findings were recorded (MD041 line beyond file; MD032/MD044 duplicate line)",
     "only the clauses that meet nondeterminism or faults are claimed; 'position exists in the file' and 'no rule crashes on any document' are input-quantified and not decided here",
     "worlds differ only in nondeterminism the code does not control; everything else (documents, names, flags) is identical",
 ]
@@ -45,7 +46,7 @@ def generate(rng, tier, index):
     from ..common import builtin_rule_ids  # noqa: F401
 
     mode = rng.choice(["scan", "scan", "fix"])
-    docs = workload.draw_docs(rng, rng.choice([1, 2, 3, 4]), need=["failing"] if rng.random() < 0.7 else None)
+    docs = workload.draw_docs(rng, rng.choice([1, 2, 3, 4]), need=["failing"] if rng.random() < 0.7 else None, allow_concat=False)
     if rng.random() < 0.3:
         from .. import corpus
 
